@@ -307,8 +307,13 @@ def run_property(pid, tier, seed, t0, pin=False):
                 known_hits.append((k, u, f))
                 continue
             violations.append((u, f, base_obs))
+        failing_for_me = {f["name"] for f in my_fails if not retry.get(f["name"])}
         for ob in mine:
             ok = ob["success"] or all(retry.get(n) for n in ob["name"].split("|"))
+            if not ok and not any(n in failing_for_me for n in ob["name"].split("|")):
+                # the function fails, but every failing clause carries a tag of ANOTHER property: the clauses that
+                # carry this property were discharged (Verus reports each failing clause separately)
+                ok = True
             obligations.append({
                 "obligation": f"{u.unit}@{u.model}:{ob['name']}", "kind": ob["kind"], "discharged": bool(ok),
                 "smt_time_ms": round(ob["time_us"] / 1000.0, 1), "rlimit": ob["rlimit"], "back_end": "verus/z3",
